@@ -158,6 +158,10 @@ def cq_items_x(trace, it: Interner) -> str:
                             for op, oc, _, d in trace if op[0] != "dispatch_error"])
 
 
+def cq_trace_x(trace, defer_cap, it: Interner) -> str:
+    return f"check_trace_x {defer_cap} " + cq_items_x(trace, it)
+
+
 def _signal_exit(rc: int) -> bool:
     """coqc (or the `timeout` wrapper) was terminated from outside: timeout's own 124 (TERM sent
     after the limit), 137 (SIGKILL: the OOM killer, or timeout -k), 143 (SIGTERM), or Popen's negative
